@@ -52,7 +52,7 @@ def generate(rng, i, tier):
         members.append(gen.gen_member(rng, hdr, len(rows), f"m{j}", zoo_p=0.4, zoo_pool=gen.ZOO_SAFE, modes=modes))
     rng.shuffle(members)  # seeded member order
     tear = {"ext": rng.choice(["csv", "json"]), "before": rng.randint(1, 8)} if rng.random() < 0.3 else None
-    return {"seed": rng.getrandbits(32), "rows": rows, "members": members, "dialect": rng.choice(DIALECTS), "policy": rng.choice([["collect", "print"], ["collect"], ["collect", "fail"], ["collect", "stop"]]), "tear": tear}
+    return {"seed": rng.getrandbits(32), "rows": rows, "members": members, "dialect": rng.choice(DIALECTS), "policy": rng.choice([["collect", "print"], ["collect"], ["collect", "fail"], ["collect", "stop"]]), "tear": tear, "peek": rng.random() < 0.3}
 
 
 def reductions(sc):
@@ -73,6 +73,8 @@ def reductions(sc):
         yield with_(sc, dialect=[",", '"'])
     if sc.get("tear"):
         yield with_(sc, tear=None)
+    if sc.get("peek"):
+        yield with_(sc, peek=False)
 
 
 def _features(m):
@@ -163,7 +165,23 @@ def execute(sc):
                     out.probe("run over a cache with half of an entry missing")
             cs = ops.new_csvpaths(delim, quote)
             where = f"{meth}" + ("" if agree is None else f"(if_all_agree={agree})")
-            caller = ops.run_group(cs, meth, "g", if_all_agree=bool(agree))
+            peeks = {"n": 0}
+
+            def on_yield(line, cs=cs):
+                # a consumer that looks at the results so far on every line it is handed (a progress display)
+                for r in ops.results_of(cs, "g"):
+                    try:
+                        len(r)
+                        ops.result_lines(r)
+                        peeks["n"] += 1
+                    except Exception as e:  # noqa: BLE001
+                        if not ops.in_repo(e):
+                            raise
+
+            caller = ops.run_group(cs, meth, "g", if_all_agree=bool(agree), on_yield=on_yield if sc.get("peek") else None)
+            if peeks["n"]:
+                out.fault("consumer_peek", peeks["n"])
+                out.probe("consumer read the collected lines while the run was going on")
             out.runs += 1
             out.fault("schedule_line_major" if meth in ops.BYLINE else "schedule_path_major")
             rs = ops.results_of(cs, "g")
@@ -215,6 +233,7 @@ def execute(sc):
         out.nontrivial = k >= 2 or bool(feats)
         out.extra["features"] = feats
         out.probe("run over a cache with half of an entry missing", False)
+        out.probe("consumer read the collected lines while the run was going on", False)
         out.probe("member with a mode set in its comment", any(m.get("modes") for m in members))
         for pr in ("file with an exact duplicate record", "a member stopped while others continue", "blank last record with last()", "advance in a file with interior blank records"):
             out.probe(pr, False)
